@@ -168,7 +168,8 @@ def check_guards(project: Project, rep):
                 for ev in rets:
                     cond = sym.And(*ev["path"]) if ev["path"] else sym.TRUE
                     mism = False
-                    for delta in (0.5, -0.5):
+                    # degrees and step counts are integers (and may be compared through int()); grid ends are reals
+                    for delta in ((1.0, -1.0) if a in ("hom_deg", "num_steps") else (0.5, -0.5)):
                         vals = dict(base)
                         vals[f"{a}_b"] = vals[f"{a}_a"] + delta
                         mism = mism or _eval_cond(cond, vals)
@@ -630,6 +631,85 @@ def check_lincomb(project: Project, rep):
         rep.unmodelled("AR-LC", fi, f, "linear combination works on raw value arrays; how depths are aligned was not recognised")
 
 
+def check_call_styles(project: Project, rep):
+    """AR-STYLE — the grid a caller asks the landscape tools for is honoured however it is spelled.  `average_approx`, `lc_approx`
+    and `snap_pl` are executed with the grid given by keyword and by position (the documented order), with the tool each of
+    them hands the work to observed instead of executed: the grid that reaches it must be the same in both spellings, and it
+    must be the one asked for."""
+    from ..core.absint import Config, Interp
+    from ..core.values import ObjV, Sc, Seq, NoneV
+    from ..core import sym as _sym
+    T = "persim.landscapes.tools."
+    AP_ = "persim.landscapes.approximate.PersLandscapeApprox"
+    grid = {"start": Sc(_sym.Sym("g_start")), "stop": Sc(_sym.Sym("g_stop")), "num_steps": Sc(_sym.Sym("g_steps"))}
+
+    def lands():
+        return Seq([ObjV(AP_, {"start": Sc(_sym.Sym(f"s{k}")), "stop": Sc(_sym.Sym(f"t{k}")), "num_steps": Sc(_sym.Sym(f"n{k}")),
+                               "hom_deg": Sc(_sym.ZERO), "values": Seq([], "list"), "dgms": Seq([], "list")}) for k in range(2)], "list")
+    coeffs = Seq([Sc(_sym.Sym("c0")), Sc(_sym.Sym("c1"))], "list")
+    plans = [(T + "average_approx", T + "lc_approx", lambda L: [L], {}),
+             (T + "lc_approx", T + "snap_pl", lambda L: [L, coeffs], {})]
+    for q, inner, lead, _ in plans:
+        fi = project.functions.get(q)
+        if fi is None or inner not in project.functions:
+            continue
+        seen = {}
+        for style in ("keyword", "positional"):
+            calls = []
+
+            state = {}
+
+            def stub(I_, bound, n_, calls=calls, state=state):
+                calls.append(dict(bound))
+                if len(calls) == 1:   # what happens after the hand-over is not this rule's business
+                    state["um"] = [u for u in I_.unmodelled if not str(u["tag"]).startswith("prim:warnings")]
+                    state["lossy"] = list(I_.lossy)
+                return ObjV(AP_, {}, tag="result")
+            I = Interp(project, Config(flags={"stub_func": {inner: stub}}))
+            L = lands()
+            pos = lead(L) + ([grid["start"], grid["stop"], grid["num_steps"]] if style == "positional" else [])
+            kw = dict(grid) if style == "keyword" else {}
+            try:
+                I.call_function(fi, pos, kw, None)
+            except Exception as ex:
+                if not calls:
+                    seen[style] = ("error", f"{type(ex).__name__}: {ex}"[:120])
+                    continue
+            if not calls:
+                um = [u for u in I.unmodelled if not str(u["tag"]).startswith("prim:warnings")]
+                seen[style] = ("inexact", "the work is not handed to " + inner.rsplit(".", 1)[1] + (f" ({um[0]['tag']})" if um else ""))
+                continue
+            um = state.get("um") or []
+            if um or state.get("lossy"):
+                seen[style] = ("inexact", str(um[0]["tag"] if um else state["lossy"][0]["why"])[:120])
+                continue
+            calls = calls[:1]
+            if len(calls) != 1:
+                seen[style] = ("inexact", f"{len(calls)} calls of {inner.rsplit('.', 1)[1]} observed")
+                continue
+            got = tuple(_sym.show(calls[0][k].e) if isinstance(calls[0].get(k), Sc) and calls[0][k].e is not None
+                        else ("None" if isinstance(calls[0].get(k), NoneV) or calls[0].get(k) is None else "?")
+                        for k in ("start", "stop", "num_steps"))
+            seen[style] = ("ok", got)
+        want = tuple(_sym.show(grid[k].e) for k in ("start", "stop", "num_steps"))
+        name = q.rsplit(".", 1)[1]
+        for style, (st, val) in seen.items():
+            if st == "ok" and val == want:
+                rep.discharged("AR-STYLE", fi, fi.node, f"{name}: the grid given by {style} reaches {inner.rsplit('.', 1)[1]} as asked",
+                               nontrivial=(style == "positional"))
+            elif st == "ok" and "?" not in val:
+                rep.refuted("AR-STYLE", fi, fi.node,
+                            f"{name}: a grid given by {style} as (start, stop, num_steps) reaches {inner.rsplit('.', 1)[1]} as {list(val)}: "
+                            f"the result is not sampled on the grid that was asked for"
+                            + (" (the keyword spelling is honoured)" if seen.get("keyword", ("", None))[1] == want and style != "keyword" else ""),
+                            construct=f"{q}: grid passed by {style}")
+            elif st == "error" and style == "positional":
+                rep.discharged("AR-STYLE", fi, fi.node, f"{name}: the positional spelling is not accepted ({val}); nothing to compare",
+                               nontrivial=False)
+            else:
+                rep.unmodelled("AR-STYLE", fi, fi.node, f"{name}: grid given by {style}: {val}")
+
+
 def check_lazy_operands(project: Project, rep):
     """AR-LAZYREAD: an arithmetic operator of either landscape class reads the lazily computed data (self.values /
     self.critical_pairs, and the other operand's) only behind a call that always computes it: a landscape built with
@@ -705,6 +785,7 @@ def run(project: Project, rep, tier: str):
     from .merge import check_merge
     check_merge(project, rep, max_len=4 if tier == "thorough" else 3)
     check_lazy_operands(project, rep)
+    check_call_styles(project, rep)
     # AR-DEFAULT: the grid a re-sampling is asked for — `None` means "derive it from the inputs"; a truth test would also
     # replace an explicit 0
     from .common import none_vs_truthiness
@@ -742,6 +823,7 @@ def run(project: Project, rep, tier: str):
     if not rv:
         rep.discharged("AR-RETVAL", None, None, f"{len(chain)} operator / tool functions: none uses the value of a call that can "
                                                 f"return nothing", nontrivial=False)
+    rep.floor("AR-STYLE", 2)
     for rn, n in (("AR-EFFECT", 30), ("AR-OWN", 30), ("AR-LAZY", 4), ("AR-GUARD", 9), ("AR-UNARY", 11), ("AR-PAD", 4), ("AR-SNAP", 2), ("AR-LC", 1), ("AR-MERGE", 1), ("AR-DTYPE", 1)):
         rep.floor(rn, n)
     for t in ("numpy.pad", "numpy.interp", "itertools.zip_longest"):
